@@ -26,17 +26,22 @@ func init() {
 // value" (plus the fresh ServerTime when asked for), and the type names arrive.
 //
 //verif:unwind 48
-func VH_C08_SendRoundTrip() { vhSendRoundTrip() }
+func VH_C08_SendRoundTrip() { vhSendRoundTrip(false) }
 
 // VH_C09_Reassemble: the same round trip read for C09: with private attributes in
 // the ad (one fixed, one of arbitrary name, adjacent or not), opted in or not, on
 // each of the three stream states, the receiver still reassembles the ad.
 //
 //verif:unwind 48
-func VH_C09_Reassemble() { vhSendRoundTrip() }
+func VH_C09_Reassemble() { vhSendRoundTrip(true) }
 
-func vhSendRoundTrip() {
+func vhSendRoundTrip(privateOnly bool) {
 	mode := vChoice("stream", 3) // 0 no key, 1 keyed+encrypting, 2 keyed, not encrypting
+	if privateOnly {
+		// C09's clause is about streams that hold a key: the unkeyed stream and the
+		// short attribute names are left to the C08 run of the same body
+		vAssume(mode != 0)
+	}
 	key := vBlob("key", 32)
 	mk := func(c *vhNetConn) *stream.Stream {
 		st := stream.NewStream(c)
@@ -53,7 +58,11 @@ func vhSendRoundTrip() {
 	// the name's length is split into cases (the plain-text receivers scan for the
 	// terminator byte by byte); its characters stay symbolic: 7 = "ClaimId"...,
 	// 10 = "ServerTime"..., 13 = a reserved-prefix name
-	n1 := string(vBlob("name1", []int{2, 7, 10, 13}[vChoice("name1_len", 4)]))
+	nlen := []int{2, 7, 10, 13}[vChoice("name1_len", 4)]
+	if privateOnly {
+		vAssume(nlen == 7 || nlen == 13)
+	}
+	n1 := string(vBlob("name1", nlen))
 	vAssume(vhIdentRE.MatchString(n1))
 	vAssume(!vIn(strings.ToLower(n1), []string{"owner", "mytype", "targettype", "capability"}))
 	ad := classad.New()
